@@ -30,6 +30,10 @@ CHECKS = {
          "Every (clean location, i, n in 1..3) for insert;delete and embed;delete: residues and the denotation incl. markers are restored. Every cut set of 0..4 positions (0 and L included) x every location of a smaller domain for slice*;concat: residues restored and the fragments of each feature together denote exactly its base atoms on their strands.",
          "L<=5 (inverse) / L<=6 (cuts) quick; fragments compared as multisets of (position,strand).",
          "DESIGN.md §5 C10"),
+ "C07": (MC, "exhaustive structure-aware mutation enumeration of seed records x reader behaviours through the real scanner, and all token/byte strings through every string parser, under a watchdog",
+         "Ten seeds (corpus files, a generated GenBank record with every field kind, CONTIG-only, multi-record GenBank and FASTA), LF and CRLF: every truncation offset, every line deleted/duplicated/swapped, every offset x 12 replacement bytes on the small seeds, every declared LOCUS length 0..2N, every field line's indent -3..+3, value removed, name widened; environment answers: one full read, one short read at every offset, one byte per read (results must not depend on them). Every token string of <=4 (quick) / <=5 (thorough) tokens and every byte string of length <=2 through AsLocation, AsLocator, AsModifier, Selector, AsDate, AsMolecule, AsTopology and the feature-table parser. Oracle: no panic, returns under a watchdog, Len()==residues delivered, a truncated stream yields only a prefix of the full stream's records (never a cut one), a declared length different from the ORIGIN count is an error, valid seeds are read completely.",
+         "Termination is decided by a 20 s watchdog around calls costing milliseconds; proportional running time is not measured. FASTA has no terminator, so a cut last FASTA record is accepted. seqio parsing serialised; qualifier registries warmed first.",
+         "DESIGN.md §5 C07"),
  "C08": (MC, "exhaustive enumeration of (multi-segment region, modifier) through the real Resize/Locate against a spliced-coordinate model; all modifier values/strings; assembled locator strings",
          "Every region of 1..4 (quick) / 1..5 (thorough) segments with lengths 1..3 and every per-segment orientation, listed and complemented (plus nested shapes) x all five modifier forms with both offsets in [-len-3,len+3]: the atoms covered by Resize equal the slice [lo,hi) of the spliced axis (outward extension of the first/last segment outside), zero-length results sit on the right boundary, Locate bytes agree, and the same law holds for the complemented region. Every modifier value prints and re-parses to itself; every modifier token string of <=6 tokens is a parse/print fixed point; every locator string X, @M, X@M assembled from modifiers, points, ranges, complement ranges and selectors is compared with the reference semantics on 6 feature tables.",
          "Segments of a region are disjoint with gap 1; spliced-axis model written independently of region.go; selector reference from C19.",
